@@ -92,6 +92,23 @@ def check(ctx, rep):
                 dk = half_key(ctx, se, d, dec)
                 good = ek == ("param", 1) and dk == ("param", 1)
                 desc = "encrypter keyed by %s, decrypter by %s" % (show(ek) if ek else "?", show(dk) if dk else "?")
+                if not good:
+                    # one half keyed from the other's stored key (the key derived once): compare
+                    # the stored keys themselves, with every constructor looked through
+                    dse = ctx.deep.run(comb + "::new")
+                    dr = strip(dse.ret) if dse is not None else ("?",)
+                    if dr[0] == "agg" and dr[2] == comb:
+                        def stored_key(v, half):
+                            v = strip(v)
+                            if v[0] == "agg" and v[2] == half:
+                                ks = [o for o, f in zip(v[4], fb.adt_fields(half)) if fb.ty(f["ty"]).k == "array"]
+                                return util.bexpr(ctx, dse, ks[0]) if len(ks) == 1 else None
+                            return None
+                        kb_e, kb_d = stored_key(dr[4][ei], enc), stored_key(dr[4][di], dec)
+                        from rules.util import has_raw
+                        if kb_e is not None and kb_e == kb_d and not has_raw(kb_e) and "('P', 1)" in str(kb_e) and not any("('P', %d)" % k in str(kb_e) for k in range(2, 6)):
+                            good = True
+                            desc = "both halves store the same key expression of the session-key parameter: %s" % util.show_b(kb_e)[:120]
             rep.check(good, "ctor-same-key", comb + "::new", "both-halves", desc, "combined constructor does not key both halves with its session-key parameter unchanged: " + desc, se.body.loc())
         # frames
         for name, fam, b in headers.facade_methods(ctx, comb):
